@@ -26,21 +26,16 @@ fn c16_reg_for_no() {
     assert!(get_reg_for_no(n, RegType::General) == sysv(n), "C16.reg_for_no.E1 argument n goes to the n-th SysV integer register");
 }
 
-#[kani::proof]
-#[kani::unwind(29)]
-fn c16_prepare() {
-    let n: usize = kani::any();
-    kani::assume(n <= 6);
+fn check_prepare(n: usize) {
+    // n is concrete here: a concrete-length argument list with symbolic values
     let vals: [u64; 6] = kani::any();
-    let mut v: Vec<(u64, RegType)> = Vec::new();
+    let mut v: Vec<(u64, RegType)> = Vec::with_capacity(6);
     let mut k = 0;
-    while k < 6 { if k < n { v.push((vals[k], RegType::General)); } k += 1; }
+    while k < n { v.push((vals[k], RegType::General)); k += 1; }
     let args = CallArgs(v.into_boxed_slice());
-    let raw: nix::libc::user_regs_struct = unsafe { core::mem::transmute([0u64; 27]) };
-    let mut m = RegisterMap::from(raw);
-    // symbolic old values for all registers
-    let mut i = 0;
-    while i < 27 { m.update(ALL[i], kani::any()); i += 1; }
+    let words: [u64; 27] = kani::any();
+    let raw: nix::libc::user_regs_struct = unsafe { core::mem::transmute(words) };
+    let mut m = RegisterMap::from(raw);   // every register symbolic
     let old = m.clone();
     args.prepare_registers(&mut m);
     let r_i: usize = kani::any();
@@ -48,8 +43,8 @@ fn c16_prepare() {
     let r = ALL[r_i];
     let mut is_arg = false;
     let mut a = 0;
-    while a < 6 {
-        if a < n && r == sysv(a) {
+    while a < n {
+        if r == sysv(a) {
             is_arg = true;
             assert!(m.value(r) == vals[a], "C16.prepare.E1 the a-th argument register holds exactly the a-th argument");
         }
@@ -58,4 +53,11 @@ fn c16_prepare() {
     if !is_arg {
         assert!(m.value(r) == old.value(r), "C16.prepare.E2 frame: every register that is not an argument register is unchanged");
     }
+}
+
+#[kani::proof]
+#[kani::unwind(8)]
+fn c16_prepare() {
+    let mut n = 0;
+    while n <= 6 { check_prepare(n); n += 1; }
 }
